@@ -173,8 +173,16 @@ func writeUsingMaterial(mat *modeling.Material, out *txt.Writer) {
 	}
 }
 
-func writeFaceVerts(tris *iter.ArrayIterator[int], out *txt.Writer, start, end, offset int) {
-	shift := 1 + offset
+// objIndexBase holds how many v, vt and vn lines the meshes already written
+// have contributed. OBJ indices are global per line type, and a mesh only
+// emits the line types it has data for, so the three bases advance
+// independently.
+type objIndexBase struct {
+	v, vt, vn int
+}
+
+func writeFaceVerts(tris *iter.ArrayIterator[int], out *txt.Writer, start, end int, base objIndexBase) {
+	shift := 1 + base.v
 	for triIndex := start; triIndex < end; triIndex += 3 {
 		out.StartEntry()
 		out.String("f ")
@@ -188,91 +196,95 @@ func writeFaceVerts(tris *iter.ArrayIterator[int], out *txt.Writer, start, end, 
 	}
 }
 
-func writeFaceVertsAndUvs(tris *iter.ArrayIterator[int], out *txt.Writer, start, end, offset int) {
-	shift := 1 + offset
+func writeFaceVertsAndUvs(tris *iter.ArrayIterator[int], out *txt.Writer, start, end int, base objIndexBase) {
+	shift := 1 + base.v
+	uvShift := 1 + base.vt
 	for triIndex := start; triIndex < end; triIndex += 3 {
-		p1 := tris.At(triIndex) + shift
-		p2 := tris.At(triIndex+1) + shift
-		p3 := tris.At(triIndex+2) + shift
+		p1 := tris.At(triIndex)
+		p2 := tris.At(triIndex + 1)
+		p3 := tris.At(triIndex + 2)
 
 		out.StartEntry()
 		out.String("f ")
 
-		out.Int(p1)
+		out.Int(p1 + shift)
 		out.String("/")
-		out.Int(p1)
+		out.Int(p1 + uvShift)
 		out.Space()
 
-		out.Int(p2)
+		out.Int(p2 + shift)
 		out.String("/")
-		out.Int(p2)
+		out.Int(p2 + uvShift)
 		out.Space()
 
-		out.Int(p3)
+		out.Int(p3 + shift)
 		out.String("/")
-		out.Int(p3)
+		out.Int(p3 + uvShift)
 		out.NewLine()
 		out.FinishEntry()
 	}
 }
 
-func writeFaceVertsAndNormals(tris *iter.ArrayIterator[int], out *txt.Writer, start, end, offset int) {
-	shift := 1 + offset
+func writeFaceVertsAndNormals(tris *iter.ArrayIterator[int], out *txt.Writer, start, end int, base objIndexBase) {
+	shift := 1 + base.v
+	normalShift := 1 + base.vn
 	for triIndex := start; triIndex < end; triIndex += 3 {
-		p1 := tris.At(triIndex) + shift
-		p2 := tris.At(triIndex+1) + shift
-		p3 := tris.At(triIndex+2) + shift
+		p1 := tris.At(triIndex)
+		p2 := tris.At(triIndex + 1)
+		p3 := tris.At(triIndex + 2)
 
 		out.StartEntry()
 		out.String("f ")
 
-		out.Int(p1)
+		out.Int(p1 + shift)
 		out.String("//")
-		out.Int(p1)
+		out.Int(p1 + normalShift)
 		out.Space()
 
-		out.Int(p2)
+		out.Int(p2 + shift)
 		out.String("//")
-		out.Int(p2)
+		out.Int(p2 + normalShift)
 		out.Space()
 
-		out.Int(p3)
+		out.Int(p3 + shift)
 		out.String("//")
-		out.Int(p3)
+		out.Int(p3 + normalShift)
 		out.NewLine()
 		out.FinishEntry()
 	}
 }
 
-func writeFaceVertAndUvsAndNormals(tris *iter.ArrayIterator[int], out *txt.Writer, start, end, offset int) {
-	shift := 1 + offset
+func writeFaceVertAndUvsAndNormals(tris *iter.ArrayIterator[int], out *txt.Writer, start, end int, base objIndexBase) {
+	shift := 1 + base.v
+	uvShift := 1 + base.vt
+	normalShift := 1 + base.vn
 	for triIndex := start; triIndex < end; triIndex += 3 {
-		p1 := tris.At(triIndex) + shift
-		p2 := tris.At(triIndex+1) + shift
-		p3 := tris.At(triIndex+2) + shift
+		p1 := tris.At(triIndex)
+		p2 := tris.At(triIndex + 1)
+		p3 := tris.At(triIndex + 2)
 
 		out.StartEntry()
 		out.String("f ")
 
-		out.Int(p1)
+		out.Int(p1 + shift)
 		out.String("/")
-		out.Int(p1)
+		out.Int(p1 + uvShift)
 		out.String("/")
-		out.Int(p1)
+		out.Int(p1 + normalShift)
 		out.Space()
 
-		out.Int(p2)
+		out.Int(p2 + shift)
 		out.String("/")
-		out.Int(p2)
+		out.Int(p2 + uvShift)
 		out.String("/")
-		out.Int(p2)
+		out.Int(p2 + normalShift)
 		out.Space()
 
-		out.Int(p3)
+		out.Int(p3 + shift)
 		out.String("/")
-		out.Int(p3)
+		out.Int(p3 + uvShift)
 		out.String("/")
-		out.Int(p3)
+		out.Int(p3 + normalShift)
 		out.NewLine()
 		out.FinishEntry()
 	}
@@ -358,9 +370,9 @@ func WriteMeshes(meshes []ObjMesh, materialFile string, out io.Writer) error {
 		}
 	}
 
-	var faceWriter func(tris *iter.ArrayIterator[int], out *txt.Writer, start, end, offset int)
+	var faceWriter func(tris *iter.ArrayIterator[int], out *txt.Writer, start, end int, base objIndexBase)
 
-	indexOffset := 0
+	indexBase := objIndexBase{}
 	for _, objMesh := range meshes {
 		if len(meshes) > 1 || objMesh.Name != "" {
 			fmt.Fprintf(out, "g %s\n", objMesh.Name)
@@ -380,7 +392,7 @@ func WriteMeshes(meshes []ObjMesh, materialFile string, out io.Writer) error {
 		mats := m.Materials()
 		indices := m.Indices()
 		if len(mats) == 0 {
-			faceWriter(indices, writer, 0, indices.Len(), indexOffset)
+			faceWriter(indices, writer, 0, indices.Len(), indexBase)
 			if err := writer.Error(); err != nil {
 				return fmt.Errorf("failed to write faces: %w", err)
 			}
@@ -393,7 +405,7 @@ func WriteMeshes(meshes []ObjMesh, materialFile string, out io.Writer) error {
 				}
 
 				nextOffset := offset + (mat.PrimitiveCount * 3)
-				faceWriter(indices, writer, offset, nextOffset, indexOffset)
+				faceWriter(indices, writer, offset, nextOffset, indexBase)
 				if err := writer.Error(); err != nil {
 					return fmt.Errorf("failed to write faces: %w", err)
 				}
@@ -401,7 +413,17 @@ func WriteMeshes(meshes []ObjMesh, materialFile string, out io.Writer) error {
 				offset = nextOffset
 			}
 		}
-		indexOffset += m.AttributeLength()
+
+		// Advance each base by the number of lines this mesh actually wrote
+		if m.HasFloat3Attribute(modeling.PositionAttribute) {
+			indexBase.v += m.Float3Attribute(modeling.PositionAttribute).Len()
+		}
+		if m.HasFloat2Attribute(modeling.TexCoordAttribute) {
+			indexBase.vt += m.Float2Attribute(modeling.TexCoordAttribute).Len()
+		}
+		if m.HasFloat3Attribute(modeling.NormalAttribute) {
+			indexBase.vn += m.Float3Attribute(modeling.NormalAttribute).Len()
+		}
 	}
 
 	return nil
